@@ -22,7 +22,9 @@ RULE = ('One case = a generated statechart (or the empty one) + a random sequenc
         'names, descendants, non-composite parents, history under non-compound, transitions from final/history states, both '
         'rotate arguments empty, valid source + invalid target...). After every call: public view == model view; soundness rules; '
         'rejected call => view unchanged. Non-trivial = distinct (operation, outcome, structural context class) triples; '
-        'rejected calls with a partially valid argument list are counted separately.')
+        'rejected calls with a partially valid argument list are counted separately.  Transition objects are tracked by identity (equal '
+        'look-alikes, also ones differing by contract only; objects taken out are re-used); before the derived queries are asked the parent '
+        'relation is walked with a step bound (cycle / second root = violation).')
 ASSUMPTIONS = ['docstrings of sismic.model.Statechart are the specification of each operation',
                'move_state under a non-composite parent is accepted by the code and not forbidden by the statement: the model follows '
                'the code there; only the listed soundness rules are judged',
